@@ -235,8 +235,34 @@ Record vres := mkV { v_out : outcome; v_exec : list stmt; v_decl : list stmt; v_
 
 Definition discs_nodup (acts : list action) : bool := nodupN (somes (map D acts)).
 
+(* several commits in one program: the declarations are cut into segments, each committed by its own
+   execute_actions (Configurator.commit starts a fresh ActionState afterwards) *)
+Fixpoint split_at {A} (ns : list nat) (l : list A) : list (list A) :=
+  match ns with [] => [l] | n :: r => firstn n l :: split_at r (skipn n l) end.
+Fixpoint commit_segs (segs : list (list action)) : outcome * list event :=
+  match segs with
+  | [] => (Done, [])
+  | s :: r => let '(o, lg) := commit s in
+              match o with
+              | Done => let '(o2, lg2) := commit_segs r in (o2, lg ++ lg2)
+              | _ => (o, lg)
+              end
+  end.
+
 Definition run_variant (ws : list wstmt) (v : val) : option vres :=
   match v with
+  | VL [VL nodes; VL places; VL cuts] =>
+      olet paths := node_paths child_path nodes [[]] in
+      olet pl := map_opt get_place places in
+      olet cs := map_opt get_nat cuts in
+      let decl := flat_map (fun p => match find_w (fst (fst p)) ws with
+                                     | Some w => [(set_acc w (snd p), snd (fst p))] | None => [] end) pl in
+      let acts := map (fun wp => to_action paths (fst wp) (snd wp)) decl in
+      let '(o, log) := commit_segs (split_at cs acts) in
+      let ex := pick (map fst decl) (run_ids log) in
+      let dl := map (fun wp => wst (fst wp)) decl in
+      Some (mkV o ex dl (runl ex empty) (discs_nodup acts)
+                (listN_eqb (sids ex) (sids (flat_map schedule (split_at cs dl)))))
   | VL [VL nodes; VL places] =>
       olet paths := node_paths child_path nodes [[]] in
       olet pl := map_opt get_place places in
